@@ -33,7 +33,7 @@ def e0_of(ent, lv, mode):
     return q - el - (4 * EMASS if z < 0 else 0.0)
 
 
-def dline(jid, name, level, mode, win, seed, nev, plans=None, tplan=None, nme=None, bbplan=None):
+def dline(jid, name, level, mode, win, seed, nev, plans=None, tplan=None, nme=None, bbplan=None, knife=None):
     s = "D %s %s %d %d %s %s %d %d -1 0.5 %d %s" % (
         jid, name, level, mode, "x" if win is None else repr(win[0]), "x" if win is None else repr(win[1]), seed, nev,
         len(plans or []), " ".join(sch.fmt_plan(p) for p in (plans or [])))
@@ -43,11 +43,14 @@ def dline(jid, name, level, mode, win, seed, nev, plans=None, tplan=None, nme=No
         s += " N " + " ".join(repr(x) for x in nme)
     if bbplan:
         s += " B " + sch.fmt_plan(bbplan)
+    if knife is not None:
+        s += " M %r" % knife
     return s
 
 
-def cascade_jobs(S, rng, modes_per_level=1, suffix=""):
-    """one D job per cascade path of every (isotope, level): -> [(line, meta)]"""
+def cascade_jobs(S, rng, modes_per_level=1, suffix="", outcomes=True):
+    """one D job per cascade path of every (isotope, level), and one per conversion / pair outcome of every transition: -> [(line, meta)]"""
+    seen_tr = set()
     tab = S.tab["table"]
     low = S.tab["low"]
     chains = S.tab["chains"]["dbd"]
@@ -79,6 +82,26 @@ def cascade_jobs(S, rng, modes_per_level=1, suffix=""):
                         jid = "%s.%d.%d.p%d" % (nm, il, m, n)
                         line = dline(jid, nm, il, m, None, rng.randrange(1, 2 ** 31), 1, plans=plans) + suffix
                         out.append((line, {"kind": "cascade-path", "iso": nm, "level": il, "mode": m, "sig": S.path_sig(key, p), "id": jid}))
+                # every conversion / pair outcome of every transition of the routine (the gamma outcome is what the paths above take
+                # most of the time): the outcome deviate is planned, on a witness path through the transition
+                if outcomes and ki == len(keys) - 1:
+                    wmap = dict(S.witness_paths(key))
+                    for (ei, ij, prim, args) in S.transitions(key):
+                        outs = S.transition_outcomes(prim, args)
+                        if not outs or ei not in wmap or (key, ei, ij) in seen_tr:
+                            continue
+                        seen_tr.add((key, ei, ij))
+                        p = wmap[ei]
+                        no = S.transition_ordinal(key, p, ei, ij)
+                        for oname, (lo, hi) in outs.items():
+                            if oname == "gamma":
+                                continue
+                            n += 1
+                            plans = [[] for _ in range(ki)] + [S.plan(key, p)]
+                            jid = "%s.%d.%d.o%d" % (nm, il, modes[0], n)
+                            line = dline(jid, nm, il, modes[0], None, rng.randrange(1, 2 ** 31), 1, plans=plans, tplan=[None] * no + [(lo + hi) / 2]) + suffix
+                            out.append((line, {"kind": "cascade-outcome-" + oname, "iso": nm, "level": il, "mode": modes[0],
+                                               "sig": S.path_sig(key, p) + "#%d.%d=%s" % (ei, ij, oname), "id": jid}))
     return out
 
 
@@ -215,6 +238,10 @@ def run(tier, replay):
                         add(dline("%s.%d.%d.p%d" % (nm, il, m, n), nm, il, m, None, rng.randrange(1, 2 ** 31), 1, plans=plans),
                             {"kind": "cascade-path", "iso": nm, "level": il, "mode": m, "sig": S.path_sig(key, p)})
                         done_paths.add(S.path_sig(key, p))
+    # ... and every conversion / pair outcome of every transition of the daughter routines
+    for (l_, m_) in cascade_jobs(S, rng, 1):
+        if m_["kind"].startswith("cascade-outcome"):
+            add(l_, {"kind": m_["kind"], "iso": m_["iso"], "level": m_["level"], "mode": m_["mode"], "sig": m_["sig"]})
     nshards = 8
     shards = [jobs[i::nshards] for i in range(nshards)]
     # a caller-owned parameter block in use (legacy interface): ONE bbpars block initialised again and again through
@@ -353,6 +380,83 @@ def run(tier, replay):
                      "ordinate deviate just %s it, port and reference take different decisions: %s %s" % (
                          iso_, il_, m_, e1_, k_, r_, "below" if tag == "lo" else "above", rj["cls"], rj["detail"][:200]),
                      {"job": line, "result": rj})
+    # ---- 3c. the same for the second lepton of the window modes (f2max * u <= fe2(e2)): first lepton accepted at a planned energy,
+    #      second-lepton trial at a planned energy, ordinate deviate 1e-5 below / above the port's own boundary fe2/f2max.  fe2 and the
+    #      majorant are plain function evaluations (no quadrature): port and reference agree to rounding, so the knife-edge margin of
+    #      these jobs is 1e-7.  Windows with a positive lower bound put the maximum of the second-lepton spectrum on an edge.
+    p2cfg = []
+    for (iso_, il_, modes_) in (("Mo100", 0, (4, 5, 6, 13, 14, 15, 19)), ("Mo100", 1, (8, 16)), ("Nd150", 0, (4, 19))):
+        ent_ = byname[iso_]
+        lv_ = ent_["levels"][il_]
+        for m_ in modes_:
+            e0_ = e0_of(ent_, lv_, m_)
+            for w_ in ((0.6 * e0_, 0.95 * e0_), (0.3 * e0_, 4.3), None):
+                p2cfg.append((iso_, il_, m_, None if w_ is None else (round(w_[0], 6), round(w_[1], 6))))
+    if not thorough:
+        p2cfg = [c_ for c_ in p2cfg if c_[2] in (4, 19)] + rng.sample([c_ for c_ in p2cfg if c_[2] not in (4, 19)], 8)
+    a2, am2 = [], {}
+    for ci, (iso_, il_, m_, w_) in enumerate(p2cfg):
+        for u1 in (0.05, 0.2, 0.4, 0.6):
+            for ue2 in (1e-6, 0.02, 0.3, 0.7, 0.98, 1 - 1e-6):
+                jid = "%s.%d.%d.cq%d_%d" % (iso_, il_, m_, ci, len(a2))
+                a2.append(dline(jid, iso_, il_, m_, w_, 91 + ci, 1, bbplan=[u1, 1e-12, ue2, 0.999999, 0.5, 1e-12]))
+                am2[jid] = (iso_, il_, m_, w_, u1, ue2, ci)
+    atf2 = os.path.join(wd, "bb_a2.trace")
+    with cf.ThreadPoolExecutor(max_workers=na) as ex:
+        def ash2(i):
+            return vlib.sh([exe, "--trace", atf2 + ".%d" % i], input="\n".join(a2[i::na]) + "\n", timeout=2400, env=vlib.harness_env("plain"))
+        for rc_, out_ in ex.map(ash2, range(na)):
+            if rc_ != 0:
+                ck.violation("cosim-crash:bb-probe", "co-simulation harness died on the second-lepton boundary probes (rc=%s): %s" % (rc_, out_[-500:]), None)
+    bnd2 = {}
+    for i in range(na):
+        cur = None
+        if not os.path.exists(atf2 + ".%d" % i):
+            continue
+        for l in open(atf2 + ".%d" % i):
+            if '"Reset"' in l:
+                cur = json.loads(l)["id"].rsplit(":", 1)[0]
+            elif cur and '"bb_trial2"' in l and cur not in bnd2:
+                a = [float(x) for x in json.loads(l)["a"]]
+                bnd2[cur] = (a[0], a[1], a[2])      # e2, fe2, f2max
+    b2, bm2 = [], {}
+    for jid, (iso_, il_, m_, w_, u1, ue2, ci) in am2.items():
+        if jid not in bnd2:
+            continue
+        e2_, fe2_, f2max_ = bnd2[jid]
+        if not (f2max_ > 0) or fe2_ < 0:
+            continue
+        r_ = fe2_ / f2max_
+        for tag, u2, then in (("lo", r_ - 1e-5, None), ("hi", r_ + 1e-5, (0.5, 1e-12))):
+            if (tag == "lo" and not u2 > 1e-300) or (tag == "hi" and not (u2 < 1.0 and r_ > 0)):
+                continue
+            j2 = "%s.%s" % (jid, tag)
+            line = dline(j2, iso_, il_, m_, w_, 91 + ci, 1, bbplan=[u1, 1e-12, ue2, u2] + (list(then) if then else []), knife=1e-7)
+            b2.append(line)
+            bm2[j2] = (iso_, il_, m_, w_, e2_, r_, tag, line)
+    bres3 = []
+    with cf.ThreadPoolExecutor(max_workers=na) as ex:
+        def bsh2(i):
+            return vlib.sh([exe], input="\n".join(b2[i::na]) + "\n", timeout=2400, env=vlib.harness_env("plain"))
+        for rc_, out_ in ex.map(bsh2, range(na)):
+            if rc_ != 0:
+                ck.violation("cosim-crash:bb-probe", "co-simulation harness died on the second-lepton boundary probes (rc=%s): %s" % (rc_, out_[-500:]), None)
+            bres3 += [json.loads(l) for l in out_.splitlines() if l.startswith("{")]
+    nbp2 = 0
+    for rj in bres3:
+        jid = rj["id"].rsplit(":", 1)[0]
+        if rj["id"].endswith(":init") or jid not in bm2:
+            continue
+        nbp2 += 1
+        (iso_, il_, m_, w_, e2_, r_, tag, line) = bm2[jid]
+        if rj["cls"] in ("agree", "knife-edge-excluded", "ref-fermi-clamp-excluded"):
+            continue
+        ck.violation("%s.%d:mode%d:second-lepton-boundary" % (iso_, il_, m_),
+                     "%s level %d mode %d window %s: second-lepton trial at e2 = %.9g MeV: the port accepts up to fe2/f2max = %.12g; with the ordinate "
+                     "deviate 1e-5 %s it, port and reference take different decisions (their majorants or spectra differ): %s %s" % (
+                         iso_, il_, m_, w_, e2_, r_, "below" if tag == "lo" else "above", rj["cls"], rj["detail"][:200]),
+                     {"job": line, "result": rj})
+    ck.set("second_lepton_boundary_probes", nbp2)
     ck.set("first_lepton_spectra_probed", len(pcfg))
     ck.set("first_lepton_boundary_probes", nbp)
     # ---- 4. TLC trace validation
